@@ -121,6 +121,7 @@ def play(args):
                 # the last group of a behaviour may be cut by the depth bound before its urgent system actions: not compared
                 e["obs"] = (k == len(group) - 1) and j < len(acts)
                 e["o"] = obs
+                e["cause"] = name          # the environment event this group of events belongs to
                 ev.append(e)
             i = j
     finally:
@@ -191,7 +192,7 @@ def run(tier):
         cfg = os.path.join(wd, f"mc_{dev}_{fl}.cfg")
         with open(cfg, "w", encoding="utf-8") as fh:
             fh.write(f'SPECIFICATION Spec\nCONSTANTS Dev = "{dev}"\n Fl = "{fl}"\n R = 3\n Slack = 1\n MaxConn = {2 if tier == "quick" else 3}\n'
-                     f' MaxTime = {11 if tier == "quick" else 16}\n'
+                     f' MaxTime = {11 if tier == "quick" else 13}\n'
                      "INVARIANT MadeOncePerConnection\nINVARIANT LostOncePerLostConnection\nINVARIANT AtMostOneLiveLink\n"
                      "INVARIANT ReconnectAfterLoss\nINVARIANT RetryEveryR\nINVARIANT QuietAfterStop\nINVARIANT SilentDroppedInTime\n"
                      "PROPERTY AnsweredNeverDropped\nPROPERTY StoppedMeansNoNewLink\nCHECK_DEADLOCK FALSE\n")
@@ -229,10 +230,7 @@ def run(tier):
     for r in rej:
         ev = r["trace"]["ev"][r["index"] - 1]
         # the environment event this (system) event belongs to
-        k = r["index"] - 1
-        while k > 0 and r["trace"]["ev"][k]["a"] in SYS:
-            k -= 1
-        cause = r["trace"]["ev"][k]["a"]
+        cause = ev.get("cause", ev["a"])
         c = r["trace"]["cfg"]
         sig = {"clauses": r["clauses"], "event": "Attempt" if ev["a"] == "DialBegin" else ev["a"], "after": cause, "dev": c["dev"], "flavour": c["fl"]}
         rep.violation(sig, {"cfg": c, "actions": r["trace"]["acts"], "rejected_at": r["index"], "observation": ev["o"]})
